@@ -73,9 +73,11 @@ def eq_outcome(a, b):
 
 def make_cell(wb, k, addressing, value=None):
     si, c, r = (int(x) for x in k.split(':'))
-    title = wb['titles'][si] if addressing in ('a1', 'mixed') else si
+    title = wb['titles'][si] if addressing in ('a1', 'mixed', 'title-num') else si
     if addressing == 'a1':
         return wbk.Cell(title, L(c), str(r), value)
+    if addressing == 'title-num':
+        return wbk.Cell(title if isinstance(title, str) else wb['titles'][si], c - 1, r - 1, value)
     if addressing == 'num':
         return wbk.Cell(title, c - 1, r - 1, value)
     return wbk.Cell(title, c - 1, str(r), value) if (c + r) % 2 else wbk.Cell(title, L(c), r - 1, value)
@@ -102,6 +104,13 @@ def replay(history, collect=None):
         return [{'case': history, 'expected': 'base workbook translates', 'actual': wbk.show_outcome(base),
                  'relation': 'override-equals-edit', 'bucket': 'base-translation:' + base[1]}]
     tr = base[1]
+    # a bystander: another executor on the same class object that is never given an override - it must keep reporting the
+    # plain workbook whatever the first executor is told
+    bystander = tr.executor()
+    plain = {}
+    for k in sorted(wb['cells']):
+        si, c, r = (int(x) for x in k.split(':'))
+        plain[k] = wbk.outcome(lambda: bystander.get_cell(wbk.Cell(si, c - 1, r - 1)).value)
     ex = tr.executor()
     overrides = {}
     fails = []
@@ -110,6 +119,14 @@ def replay(history, collect=None):
             cells = []
             for (k, v, addressing) in step['batch']:
                 cells.append(make_cell(wb, k, addressing, wbk.dec(v)))
+            if step.get('touch'):
+                # callers may keep their cells in sets or log them before handing them over (Cell is hashable by design)
+                for cell_ in cells:
+                    try:
+                        hash(cell_)
+                        cell_.to_dict()
+                    except wbk.E2PyclException:
+                        pass
             o = wbk.outcome(lambda: ex.set_cells(cells))
             if o[0] not in ('value', 'timeout'):
                 fails.append({'case': {**history, 'steps': history['steps'][:n + 1]}, 'expected': 'set_cells succeeds', 'actual': wbk.show_outcome(o),
@@ -124,6 +141,14 @@ def replay(history, collect=None):
                     continue
                 raise env.HarnessError(f'C04: edited workbook does not translate: {fresh}')
             fex = fresh[1].executor()
+            for k, want_plain in plain.items():
+                si, c, r = (int(x) for x in k.split(':'))
+                got_plain = wbk.outcome(lambda: bystander.get_cell(wbk.Cell(si, c - 1, r - 1)).value)
+                if 'timeout' not in (got_plain[0], want_plain[0]) and not eq_outcome(got_plain, want_plain):
+                    fails.append({'case': {**history, 'steps': history['steps'][:n + 1]}, 'expected': wbk.show_outcome(want_plain), 'actual': wbk.show_outcome(got_plain),
+                                  'relation': 'override-equals-edit', 'bucket': 'bystander-executor-sees-overrides',
+                                  'extra': {'cell': f'{wb["titles"][si]}!{wbk.a1(c, r)}', 'step': n}})
+                    return fails
             for k in query_keys(wb, overrides):
                 si, c, r = (int(x) for x in k.split(':'))
                 got = wbk.outcome(lambda: ex.get_cell(make_cell(wb, k, step.get('addressing', 'a1'))).value)
@@ -214,7 +239,7 @@ def build_machine(rec, histories_out):
 
     value = st.one_of(st.integers(-20, 99), st.integers(0, 9), st.sampled_from([2.5, 0.5, -1.25, 1250000.5]), st.booleans(),
                       st.sampled_from(['abc', 'x y', '12', 'TRUE', "it's"]), st.just({'$dt': '2024-02-29T00:00:00'}))
-    addressing = st.sampled_from(['a1', 'a1', 'num', 'mixed'])
+    addressing = st.sampled_from(['a1', 'a1', 'num', 'mixed', 'title-num'])
 
     class M(RuleBasedStateMachine):
         def __init__(self):
@@ -280,7 +305,7 @@ def build_machine(rec, histories_out):
                 if isinstance(now, (bool, int)) and now in (0, 1) and data.draw(st.integers(0, 1)) == 0:
                     v = int(now) if isinstance(now, bool) else bool(now)
                 batch.append([k, v, data.draw(addressing)])
-            self.history['steps'].append({'op': 'set', 'batch': batch})
+            self.history['steps'].append({'op': 'set', 'batch': batch, 'touch': data.draw(st.integers(0, 3)) == 0})
 
         @precondition(lambda self: self.history is not None and any(s['op'] == 'set' for s in self.history['steps'])
                       and self.history['steps'][-1]['op'] != 'query')
